@@ -246,6 +246,13 @@ def _chk_gzip_mtime(site, pm, px):
     return ok, "gzip header embeds the wall clock unless a constant mtime= is passed"
 
 
+def _chk_gzip_mtime_any(site, pm, px):
+    # the justification is local to the call (constant mtime=), so it holds wherever the call is moved to
+    if site.what != "gzip.compress":
+        return False, ""
+    return _chk_gzip_mtime(site, pm, px)
+
+
 def _chk_sorted_return(site, pm, px):
     rets = [n for n in ast.walk(site.func.node) if isinstance(n, ast.Return) and n.value is not None]
     ok = bool(rets) and all(isinstance(r.value, ast.Call) and effects.dotted(r.value.func) == "sorted" for r in rets)
@@ -343,7 +350,7 @@ def rule_ambient_py(ctx, px):
             if chk is None:
                 # generic structural justifications that hold for any site: the value can only reach a log record, or only selects
                 # code by interpreter version
-                for g_chk in (_chk_logging_arg, _chk_version_gate, _chk_lister_callback):
+                for g_chk in (_chk_logging_arg, _chk_version_gate, _chk_lister_callback, _chk_gzip_mtime_any):
                     try:
                         okg, whyg = g_chk(s, pm, px)
                     except Exception:
